@@ -87,6 +87,38 @@ pub open spec fn is_posix(e: EntryV) -> bool { e.classes.contains(EntryClass::Po
 //@extract GID_UNUSED_D_MIN
 //@extract GID_UNUSED_D_MAX
 //@extract apply_gidnumber
+// ---- the plugin drivers: `cand.iter_mut().try_for_each(apply_gidnumber)` ----
+// the woven postcondition of apply_gidnumber, as a predicate over (entry before, entry after, returned Ok?)
+pub open spec fn apply_post(o: EntryV, n: EntryV, ok: bool) -> bool {
+    &&& (ok ==> (n.gid matches Some(g) ==> !reserved(g)))
+    &&& ((ok && is_posix(o)) ==> n.gid is Some)
+    &&& ((o.gid matches Some(g) && reserved(g)) ==> !ok)
+    &&& n.uuid == o.uuid && n.classes == o.classes
+}
+// R3: the expression `cand.iter_mut().try_for_each(apply_gidnumber)` is redirected to this stand-in, which states the std semantics of
+// iter_mut + try_for_each (apply the function to every element in order, stop at the first Err, Ok only if every call returned Ok)
+// in terms of apply_gidnumber's own contract, which is proved above
+#[verifier::external_body]
+pub fn kvx_try_for_each_apply_gidnumber<T: Clone>(cand: &mut Vec<Entry<EntryInvalid, T>>) -> (r: Result<(), OperationError>)
+    ensures final(cand)@.len() == old(cand)@.len(),
+            r is Ok ==> forall|i: int| #![trigger old(cand)@[i]] #![trigger final(cand)@[i]] 0 <= i < old(cand)@.len() ==> apply_post(old(cand)@[i]@, final(cand)@[i]@, true),
+            (exists|i: int| 0 <= i < old(cand)@.len() && ((#[trigger] old(cand)@[i])@.gid matches Some(g) && reserved(g))) ==> r is Err,
+{ unimplemented!() }
+#[derive(Clone, Copy)] pub struct EntryNew; #[derive(Clone, Copy)] pub struct EntryCommitted; pub struct EntrySealedCommitted { pub o: u8 }
+pub struct QueryServerWriteTransaction { pub o: u8 }
+pub struct CreateEvent { pub o: u8 } pub struct ModifyEvent { pub o: u8 } pub struct BatchModifyEvent { pub o: u8 }
+pub struct Arc<T> { pub v: T }
+// every candidate ends outside the reserved ranges, and every POSIX candidate has a gid
+pub open spec fn all_safe<T>(before: Seq<Entry<EntryInvalid, T>>, after: Seq<Entry<EntryInvalid, T>>) -> bool {
+    after.len() == before.len() && forall|i: int| #![trigger after[i]] #![trigger before[i]] 0 <= i < after.len() ==> (after[i]@.gid matches Some(g) ==> !reserved(g)) && (is_posix(before[i]@) ==> after[i]@.gid is Some)
+}
+pub open spec fn some_supplied_reserved<T>(before: Seq<Entry<EntryInvalid, T>>) -> bool { exists|i: int| 0 <= i < before.len() && ((#[trigger] before[i])@.gid matches Some(g) && reserved(g)) }
+pub struct GidNumber {}
+impl GidNumber {
+//@extract pre_create_transform
+//@extract pre_modify
+//@extract pre_batch_modify
+}
 }
 }
 fn main(){}
